@@ -8,6 +8,8 @@ R1 well-formed (balanced, no unexpanded template fragment)      R2 every referen
 R3 every $parameter named in the text is supplied as keyword     R4 no data-derived hole in the text
 """
 import ast
+
+from ..normalize import resolve_helper
 import re
 
 from ..core import AnalysisError, norm, loc, walk_no_nested
@@ -134,7 +136,18 @@ def run(prog, rep):
             if not calls:
                 continue
             fq = (cls.name + '.' if cls else '') + fn.name
-            interp = Interp(fn)
+            def resolver(call, _cls=cls, _mod=m):
+                r = resolve_helper(prog, _cls, _mod, call)
+                if r is None:
+                    return None
+                h, owner, skip = r
+                if find_run_calls(h) or any(isinstance(x, (ast.Yield, ast.YieldFrom)) for x in ast.walk(h)):
+                    return None         # helpers that talk to the driver are analysed as functions of their own
+                return h, skip
+
+            def module_const(name, _mod=m):
+                return _mod.assigns.get(name)
+            interp = Interp(fn, resolver=resolver, module_const=module_const)
             try:
                 sites = interp.run()
             except AnalysisError as e:
